@@ -300,6 +300,8 @@ def arg_vectors(e, rng, nrand):
         t = a["t"]
         if t == "str":
             vals = ["T1", "a label with spaces", "x%d{y} 100%% \"q\" ~", ""]
+            # labels with bytes >= 0x80 (UTF-8 text, here as the latin-1 reading of its bytes)
+            vals[1] = "a\u00c3\u00b1adir_\u00cf\u0080 with \u00e2\u0082\u00ac spaces"
             vals += ["".join(rng.choice(PRINTABLE) for _ in range(rng.randrange(0, 24))) for _ in range(nrand)]
         else:
             bits = 8 * struct.calcsize(TYPE_PACK[t])
